@@ -772,23 +772,23 @@ Proof.
         -- intros (_ & _ & ->). left; reflexivity.
 Qed.
 
-(* which nodes are looked at: a selector whose object lives in another package, or a plain identifier whose object
-   lives in the analysed package (dot-imported names resolve there as well and are then judged as own) *)
+(* which nodes are looked at: a selector whose object lives in another package, or a plain identifier - not the selected
+   identifier of a selector - whatever package its object lives in (its own, or one brought in by a dot import) *)
 Theorem pkgo_cands_spec n c :
   In c (pkgo_cands fs cur_pkg cur_name n) <->
   exists o p, a_obj (n_attrs n) = Some o /\ o_pkg o = Some p /\
               ((n_kind n = KSelectorExpr /\ p <> cur_pkg /\ In c (pkgo_obj_cand fs cur_pkg cur_name o p (n_pos n))) \/
-               (n_kind n = KIdent /\ p = cur_pkg /\ In c (pkgo_obj_cand fs cur_pkg cur_name o cur_pkg (n_pos n)))).
+               (n_kind n = KIdent /\ a_flag (n_attrs n) = false /\ In c (pkgo_obj_cand fs cur_pkg cur_name o p (n_pos n)))).
 Proof.
   unfold pkgo_cands. split.
   - destruct (n_kind n) eqn:Ek; try (intros []).
     + destruct (a_obj (n_attrs n)) as [o|]; [|intros []]. destruct (o_pkg o) as [p|] eqn:Ep; [|intros []].
       destruct (String.eqb_spec p cur_pkg) as [E|E]; [intros []|]. intros H. exists o, p. repeat split; auto.
-    + destruct (a_obj (n_attrs n)) as [o|]; [|intros []]. destruct (o_pkg o) as [p|] eqn:Ep; [|intros []].
-      destruct (String.eqb_spec p cur_pkg) as [E|E]; [|intros []]. intros H. exists o, p. subst p. split; [reflexivity|]. split; [exact Ep|]. right. auto.
-  - intros (o & p & Ho & Hp & [(Hk & Hne & Hc)|(Hk & He & Hc)]); rewrite Hk, Ho, Hp.
+    + destruct (a_flag (n_attrs n)) eqn:Ef; [intros []|]. destruct (a_obj (n_attrs n)) as [o|]; [|intros []]. destruct (o_pkg o) as [p|] eqn:Ep; [|intros []].
+      intros H. exists o, p. split; [reflexivity|]. split; [exact Ep|]. right. auto.
+  - intros (o & p & Ho & Hp & [(Hk & Hne & Hc)|(Hk & Hf & Hc)]); rewrite Hk, Ho, Hp.
     + destruct (String.eqb_spec p cur_pkg); [contradiction|exact Hc].
-    + subst p. rewrite String.eqb_refl. exact Hc.
+    + rewrite Hf. exact Hc.
 Qed.
 
 Theorem pkgo_file_spec f :
@@ -806,8 +806,9 @@ Proof.
   destruct (n_kind n); try reflexivity.
   - destruct (a_obj (n_attrs n)) as [o|]; [|reflexivity].
     destruct (Hown o eq_refl) as [H|H]; rewrite H; [rewrite String.eqb_refl|]; reflexivity.
-  - destruct (a_obj (n_attrs n)) as [o|] eqn:Eo; [|reflexivity].
-    destruct (Hown o eq_refl) as [H|H]; rewrite H; [|reflexivity]. rewrite String.eqb_refl.
+  - destruct (a_flag (n_attrs n)); [reflexivity|].
+    destruct (a_obj (n_attrs n)) as [o|] eqn:Eo; [|reflexivity].
+    destruct (Hown o eq_refl) as [H|H]; rewrite H; [|reflexivity].
     unfold pkgo_obj_cand. rewrite (Hal o eq_refl H).
     destruct (o_kind o); try reflexivity.
     + unfold pkgo_type_cand. destruct (pkgo_attach fs AKType cur_pkg "" (o_name o)); [reflexivity|].
@@ -1029,7 +1030,10 @@ Proof.
   { intros o p pos H. unfold pkgo_obj_cand in H. destruct (o_kind o); try contradiction.
     - destruct (if o_is_alias o then named_direct (o_type o) else None) as [[tp tn]|]; eapply Ht; eassumption.
     - exfalso. apply Hk. destruct (o_is_method o); [eapply Hm|eapply Hf]; eassumption. }
-  unfold pkgo_cands in Hc. destruct (n_kind n); try contradiction;
-    (destruct (a_obj (n_attrs n)) as [o|]; [|contradiction]; destruct (o_pkg o) as [p|]; [|contradiction];
-     destruct (String.eqb p cur); try contradiction; eapply Ho; eassumption).
+  unfold pkgo_cands in Hc. destruct (n_kind n); try contradiction.
+  - destruct (a_obj (n_attrs n)) as [o|]; [|contradiction]. destruct (o_pkg o) as [p|]; [|contradiction].
+    destruct (String.eqb p cur); try contradiction. eapply Ho; eassumption.
+  - destruct (a_flag (n_attrs n)); [contradiction|].
+    destruct (a_obj (n_attrs n)) as [o|]; [|contradiction]. destruct (o_pkg o) as [p|]; [|contradiction].
+    eapply Ho; eassumption.
 Qed.
